@@ -497,6 +497,12 @@ impl DbInner {
 	where
 		I: IntoIterator<Item = (ColId, Operation<Vec<u8>, Vec<u8>>)>,
 	{
+		let tx: Vec<(ColId, Operation<Vec<u8>, Vec<u8>>)> = tx.into_iter().collect();
+		// Validate the whole transaction before anything is claimed, counted or published:
+		// a rejected transaction must leave no trace.
+		for (col, change) in tx.iter() {
+			self.validate_change(*col, change)?;
+		}
 		let mut commit: CommitChangeSet = Default::default();
 		for (col, change) in tx.into_iter() {
 			if self.options.columns[col as usize].btree_index {
@@ -628,6 +634,52 @@ impl DbInner {
 		}
 
 		self.commit_raw(commit)
+	}
+
+	// Checks that `change` is admissible for column `col`. No side effects.
+	fn validate_change(&self, col: ColId, change: &Operation<Vec<u8>, Vec<u8>>) -> Result<()> {
+		let options = &self.options.columns[col as usize];
+		if !options.btree_index && options.multitree {
+			match change {
+				Operation::Set(..) | Operation::Reference(..) | Operation::Dereference(..) =>
+					Err(Error::InvalidConfiguration(
+						"Invalid operation for multitree column".to_string(),
+					)),
+				Operation::InsertTree(..) => Ok(()),
+				Operation::ReferenceTree(..) =>
+					if options.append_only || options.ref_counted {
+						Ok(())
+					} else {
+						Err(Error::InvalidInput(format!("No Rc for column {}", col)))
+					},
+				Operation::DereferenceTree(key) => {
+					if options.append_only {
+						return Err(Error::InvalidConfiguration(
+							"Attempting to dereference a tree from an append_only column."
+								.to_string(),
+						))
+					}
+					if self.get(col, key, false)?.is_none() {
+						return Err(Error::InvalidConfiguration("No entry for tree root".to_string()))
+					}
+					Ok(())
+				},
+			}
+		} else {
+			match change {
+				Operation::Set(..) | Operation::Dereference(..) => Ok(()),
+				Operation::Reference(..) =>
+					if options.ref_counted {
+						Ok(())
+					} else {
+						Err(Error::InvalidInput(format!("No Rc for column {}", col)))
+					},
+				Operation::InsertTree(..) |
+				Operation::ReferenceTree(..) |
+				Operation::DereferenceTree(..) =>
+					Err(Error::InvalidInput(format!("Invalid operation for column {}", col))),
+			}
+		}
 	}
 
 	fn commit_raw(&self, commit: CommitChangeSet) -> Result<()> {
